@@ -113,6 +113,22 @@ func NewTimeBucketInfo(tf utils.Timeframe, path, description string, year int16,
 	return f
 }
 
+// ValidateSchema reports whether the column schema fits the on-disk file header:
+// at most maxNumElements columns, each name at most elementNameHeaderBytes bytes.
+// Anything longer would be silently truncated by Header.Load.
+func (f *TimeBucketInfo) ValidateSchema() error {
+	if len(f.elementNames) > maxNumElements {
+		return fmt.Errorf("too many columns: %d (the file header holds at most %d)", len(f.elementNames), maxNumElements)
+	}
+	for _, name := range f.elementNames {
+		if len(name) > elementNameHeaderBytes {
+			return fmt.Errorf("column name %q is too long: %d bytes (the file header holds at most %d)",
+				name, len(name), elementNameHeaderBytes)
+		}
+	}
+	return nil
+}
+
 func CreateShapesForTimeBucketInfo(dsv []DataShape) (elementTypes []EnumElementType, elementNames []string) {
 	/*
 		Takes a datashape array and returns elementTypes and elementNames
